@@ -52,12 +52,13 @@ def strip_comments(src: str) -> str:
     return ''.join(out)
 
 def lean_files() -> list[str]:
-    res = []
-    for root, _, files in os.walk(os.path.join(LEAN, 'MalVerif')):
-        for f in files:
-            if f.endswith('.lean'):
-                res.append(os.path.join(root, f))
-    res.append(os.path.join(LEAN, 'Driver.lean'))
+    """the files of the library: every module imported by the root `MalVerif.lean` (which lists all modules
+    explicitly), the root itself and the driver.  A .lean file that the root does not import is not part of
+    the build and carries no claim."""
+    res = [os.path.join(LEAN, 'MalVerif.lean'), os.path.join(LEAN, 'Driver.lean')]
+    root = open(os.path.join(LEAN, 'MalVerif.lean'), encoding='utf-8').read()
+    for m in re.findall(r'^import\s+(MalVerif\.[\w\.]+)', root, re.M):
+        res.append(os.path.join(LEAN, *m.split('.')) + '.lean')
     return sorted(res)
 
 def grep_audit() -> list[str]:
@@ -69,13 +70,20 @@ def grep_audit() -> list[str]:
                 hits.append(f'{os.path.relpath(f, LEAN)}:{n}: {line.strip()[:100]}')
     return hits
 
-def prop_theorems(pid: str) -> list[str]:
-    """names of the theorems stated in Props/<pid>.lean (namespace MalVerif.<pid>)"""
-    path = os.path.join(LEAN, 'MalVerif', 'Props', f'{pid}.lean')
+def _theorems_of(path: str, ns: str) -> list[str]:
     if not os.path.exists(path):
         return []
     src = strip_comments(open(path, encoding='utf-8').read())
-    return [f'MalVerif.{pid}.{m}' for m in re.findall(r'^\s*theorem\s+([A-Za-z_][\w\.\']*)', src, re.M)]
+    return [f'{ns}.{m}' for m in re.findall(r'^\s*theorem\s+([A-Za-z_][\w\.\']*)', src, re.M)]
+
+def prop_theorems(pid: str) -> list[str]:
+    """names of the theorems stated in Props/<pid>.lean (namespace MalVerif.<pid>) and, where the property has a
+    translated-code counterpart, in PropsGen/<pid>.lean (namespace MalVerif.PropsGen.<pid>)"""
+    return _theorems_of(os.path.join(LEAN, 'MalVerif', 'Props', f'{pid}.lean'), f'MalVerif.{pid}') + \
+        _theorems_of(os.path.join(LEAN, 'MalVerif', 'PropsGen', f'{pid}.lean'), f'MalVerif.PropsGen.{pid}')
+
+def has_propsgen(pid: str) -> bool:
+    return os.path.exists(os.path.join(LEAN, 'MalVerif', 'PropsGen', f'{pid}.lean'))
 
 def lake_build(timeout=1800) -> tuple[bool, str]:
     p = subprocess.run(['lake', 'build'], cwd=LEAN, capture_output=True, text=True, timeout=timeout)
@@ -91,6 +99,7 @@ def axiom_audit(pid: str, theorems: list[str]) -> dict:
     f = os.path.join(d, f'Audit_{pid}_{os.getpid()}.lean')
     with open(f, 'w') as fh:
         fh.write(f'import MalVerif.Props.{pid}\n')
+        if has_propsgen(pid): fh.write(f'import MalVerif.PropsGen.{pid}\n')
         for t in theorems:
             fh.write(f'#print axioms {t}\n')
     try:
@@ -124,11 +133,15 @@ def lean_side(pid: str, tier: str) -> dict:
     else:
         res.update(axioms={}, bad=[f'build failed'])
     if tier == 'thorough' and ok and thms and os.environ.get('VERIF_NO_LEANCHECKER') != '1':
-        p = subprocess.run(['lake', 'env', 'leanchecker', f'MalVerif.Props.{pid}'], cwd=LEAN,
+        p = subprocess.run(['lake', 'env', 'leanchecker', f'MalVerif.Props.{pid}'] +
+                           ([f'MalVerif.PropsGen.{pid}'] if has_propsgen(pid) else []), cwd=LEAN,
                            capture_output=True, text=True, timeout=3600)
         res['leanchecker'] = 'ok' if p.returncode == 0 else (p.stdout + p.stderr)[-500:]
         if p.returncode != 0:
             res['bad'].append('leanchecker rejected MalVerif.Props.' + pid)
+    from . import tie as _tie
+    if pid in _tie.PIDS and ok:
+        res['tie'] = _tie.translator_tie(pid)
     res['obligations'] = len(thms)
     res['discharged'] = len([t for t in thms if t in res['axioms'] and set(res['axioms'][t]) <= STD_AXIOMS]) if ok else 0
     res['ok'] = ok and not res['grep_hits'] and not res['bad'] and len(thms) > 0
@@ -163,6 +176,11 @@ def run_driver(payloads: list[dict], jobs: int | None = None) -> list[dict]:
         out[i::jobs] = part
     return out
 
+# the case (language / model / history) the harness is working on right now: reported if the real code crashes on it
+CURRENT: dict = {}
+def set_current(**kw):
+    CURRENT.update(kw)
+
 # ---------------------------------------------------------------- results
 def canon_hash(obj: Any) -> str:
     return hashlib.sha1(json.dumps(obj, sort_keys=True, default=str).encode()).hexdigest()[:16]
@@ -185,6 +203,7 @@ class Result:
     distribution: dict = field(default_factory=dict)
     notes: list = field(default_factory=list)
     traces_validated: int = 0
+    escalation: dict = field(default_factory=dict)
 
     def bump(self, key: str, n: int = 1):
         self.distribution[key] = self.distribution.get(key, 0) + n
@@ -253,6 +272,8 @@ def finish(pid: str, tier: str, seed: int, lean: dict, res: Result, assumptions:
         'lean_wall_s': lean.get('wall_s'),
     }
     if 'leanchecker' in lean: cov['leanchecker'] = lean['leanchecker']
+    if lean.get('tie'): cov['translator_tie'] = lean['tie']
+    if getattr(res, 'escalation', None): cov['escalation'] = res.escalation
     ev = {'property_id': pid, 'tier': tier, 'seed': seed, 'level': 'proof', 'coverage': cov,
           'assumptions': assumptions + ([partial_note] if partial_note else []),
           'wall_s': round(time.time() - t0, 2), 'violations': len(uniq)}
